@@ -97,6 +97,7 @@ func buildAPICalls(seed int64) []apiCall {
 	var calls []apiCall
 	files := map[string][]byte{}
 	addEnc := func(name, im string, o webp.EncoderOptions) {
+		o = withDefaults(o)
 		oo := o
 		files[name] = mustEncode(imgs[im], &oo)
 		calls = append(calls, apiCall{"Encode:" + name, func() (string, error) {
@@ -292,7 +293,8 @@ func checkC10(args []string) {
 	for _, sz := range sizes {
 		img := noiseNRGBA(rng, sz[0], sz[1], 0)
 		for _, method := range []int{4, 3} {
-			o := &webp.EncoderOptions{Quality: 60, Method: method}
+			oo := withDefaults(webp.EncoderOptions{Quality: 60, Method: method})
+			o := &oo
 			var base []byte
 			for pi, pf := range c10Profiles {
 				for s := 0; s < seedsPer; s++ {
